@@ -290,12 +290,20 @@ def abs_schema(alias='default', include=None):
     return out
 
 
+def raw_connection(alias='default'):
+    """a plain sqlite3 connection WITHOUT Django's declared-type converters (they turn '' in a
+    `bool`/`datetime` column into None when reading, which would hide what is stored)"""
+    import sqlite3
+    from django.db import connections
+    return sqlite3.connect(connections[alias].settings_dict['NAME'])
+
+
 def abs_rows(alias='default'):
     """{table: sorted list of {column: value}} — keyed by column name, never by position"""
-    from django.db import connections
-    conn = connections[alias]
     out = {}
-    with conn.cursor() as cur:
+    conn = raw_connection(alias)
+    try:
+        cur = conn.cursor()
         cur.execute("SELECT name FROM sqlite_master WHERE type='table'")
         for (name,) in cur.fetchall():
             if name.startswith(BOOKKEEPING):
@@ -304,6 +312,8 @@ def abs_rows(alias='default'):
             cols = [d[0] for d in cur.description]
             rows = [dict(zip(cols, r)) for r in cur.fetchall()]
             out[name] = sorted(rows, key=lambda r: json.dumps(r, sort_keys=True, default=str))
+    finally:
+        conn.close()
     return out
 
 
